@@ -1192,6 +1192,60 @@ pub fn check_event(ev: &Ev, cx: &mut Cx, sinks_on: Sinks) -> Res {
 }
 
 // ---------------------------------------------------------------------------------------------
+// one property through the sinks (the "via each sink" read path of C19)
+
+/// What the rolling-file line and the OTLP log record (JSON and protobuf) carry under `key` for the
+/// ONE event `emit` produces: `Ok(None)` = the sink wrote the event without that property.
+pub struct PropViews {
+    pub file: Option<JV>,
+    pub otlp_json: Option<AV>,
+    pub otlp_proto: Option<AV>,
+}
+
+pub fn prop_through_sinks(key: &str, cx: &mut Cx, emit: impl FnOnce(&dyn emit::emitter::ErasedEmitter)) -> Result<PropViews, Fail> {
+    sinks::with_pipeline(|pl| -> Result<PropViews, Fail> {
+        {
+            let em = emit::emitter::from_fn(|evt| {
+                pl.file.emit(&evt);
+                pl.logs_json.emit(&evt);
+                pl.logs_proto.emit(&evt);
+            });
+            if let Err(p) = catch_emit(|| emit(&em)) {
+                return Err(Fail::new(format!("sinks/{}", p.sig), format!("a sink panicked on the emitting thread: {}", p.msg)));
+            }
+        }
+        if !pl.file.blocking_flush(sinks::FLUSH) || !pl.logs_json.blocking_flush(sinks::FLUSH) || !pl.logs_proto.blocking_flush(sinks::FLUSH) {
+            return Err(Fail::new("harness/sink-flush-timeout", "a sink did not flush within 60 s"));
+        }
+        let bytes = pl.new_file_bytes().map_err(|e| Fail::new("harness/file-read", e.to_string()))?;
+        let text = String::from_utf8(bytes).map_err(|_| Fail::new("file/not-utf8", "file content is not UTF-8"))?;
+        let lines: Vec<&str> = text.split('\n').filter(|l| !l.trim().is_empty()).collect();
+        if lines.len() != 1 {
+            return Err(Fail::new("sinks/file/line-count", format!("one event produced {} lines: {}", lines.len(), brief(&text))));
+        }
+        let line = jsonp::parse(lines[0]).map_err(|e| Fail::new("sinks/file/invalid-json-line", format!("{e}: {}", brief(lines[0]))))?;
+        let file = line.get(key).cloned();
+        let reqs = pl.take_requests();
+        let mut views: [Option<AV>; 2] = [None, None];
+        for (i, tag) in ["/lj/", "/lp/"].iter().enumerate() {
+            let mut logs = Vec::new();
+            for r in reqs.iter().filter(|r| r.path.contains(tag)) {
+                match decode_request(r, cx)? {
+                    Some((d, _)) => logs.extend(d.logs.into_iter().filter(|x| x.scope != sinks::WARMUP_MDL)),
+                    None => return Err(Fail::new("sinks/otlp/undecodable", format!("request to {} does not decode", r.path))),
+                }
+            }
+            if logs.len() != 1 {
+                return Err(Fail::new("sinks/otlp/record-count", format!("one event produced {} log records at {tag}", logs.len())));
+            }
+            views[i] = logs[0].attrs.iter().find(|(k, _)| k == key).map(|(_, v)| v.clone());
+        }
+        let [otlp_json, otlp_proto] = views;
+        Ok(PropViews { file, otlp_json, otlp_proto })
+    })
+}
+
+// ---------------------------------------------------------------------------------------------
 // terminal
 
 fn strip_ansi(s: &str) -> String {
